@@ -55,6 +55,13 @@ class Env:
 def evaluate(tokens, lookup):
     return b''.join(t[1] if t[0] == 'T' else lookup(t[1]) for t in tokens)
 
+class UncertainCase(Exception):
+    """the documented rules do not determine the outcome for this manifest: the case is skipped (and counted)"""
+
+
+MAX_VER_DECLARED = [(0, 0)]    # highest ninja_required_version assigned so far in parse order, in any file
+
+
 class Lexer:
     def __init__(self, fname, data):
         self.fname = fname; self.d = data + b'\0'; self.p = 0; self.last = 0
@@ -153,6 +160,11 @@ class Lexer:
                 if n == b':': text(b':'); self.p = start + 2; continue
                 if n == b'^':
                     if not self.newline_checked:
+                        if self.ver < (1, 14) and MAX_VER_DECLARED[0] >= (1, 14):
+                            # declared >= 1.14, but in another file (a parent or an earlier include): neither the manual
+                            # nor the property says whether that declaration covers this file (ninja: a sibling's does,
+                            # the including file's does not - an artefact of lexer reuse). Not compared.
+                            raise UncertainCase("scope of ninja_required_version over included files")
                         if self.ver < (1, 14):
                             self.last = start  # (ninja does not update last_token_ here; line may differ)
                             self.error("using $^ escape requires specifying 'ninja_required_version' with version greater or equal 1.14", certain=False)
@@ -217,6 +229,7 @@ class Parser:
                 val = evaluate(v, self.env.lookup)
                 if k == b'ninja_required_version':
                     fv = parse_version(val); lx.ver = fv
+                    MAX_VER_DECLARED[0] = max(MAX_VER_DECLARED[0], tuple(fv[:2]))
                     if (1, 14) < fv[:2] if False else ((fv[0] > 1) or (fv[0] == 1 and fv[1] > 14)):
                         raise FatalError("version")
                 self.env.b[k] = val
@@ -368,6 +381,7 @@ KEYS = [b'command', b'description', b'depfile', b'deps', b'dyndep', b'generator'
 
 def reference(files, main=b'build.ninja', phonycycle_err=False):
     s = State()
+    MAX_VER_DECLARED[0] = (0, 0)
     try:
         Parser(s, files, s.root, phonycycle_err).load(main)
         edges = []
@@ -388,13 +402,15 @@ def reference(files, main=b'build.ninja', phonycycle_err=False):
         return {'fatal': str(ex)}
     except RecursionError:
         return {'recursion': True}
+    except UncertainCase as ex:
+        return {'uncertain': str(ex)}
 
 def compare(files, ninja, phonycycle_err=False, quirk_d6=False, quirk_d13=False):
     """ninja: callable(files, phonycycle_err) -> dump dict | {'died':..} | {'fatal':..}"""
     global QUIRK_D6, QUIRK_D13
     QUIRK_D6, QUIRK_D13 = quirk_d6, quirk_d13
     r = reference(files, phonycycle_err=phonycycle_err); n = ninja(files, phonycycle_err)
-    if 'recursion' in r or n.get('skip'): return None, r, n
+    if 'recursion' in r or 'uncertain' in r or n.get('skip'): return None, r, n
     if 'died' in n: return 'ninja died', r, n
     if 'fatal' in r or 'fatal' in n:
         return (None if ('fatal' in r and 'fatal' in n) else 'fatal mismatch'), r, n
